@@ -30,7 +30,7 @@ META = {
 
 WIDTH_CAP = 4096          # generated format widths and removal counts are capped (F6 / pending counter are probed apart)
 BUDGET_S = 2.0            # per-input time budget (plain build)
-SAN_BUDGET_S = 10.0       # per-input time budget on the ASan+UBSan build (sanitizer slow-down, loaded machine)
+SAN_BUDGET_S = 15.0       # per-input time budget on the ASan+UBSan build (sanitizer slow-down, loaded machine)
 INT_MAX = 2147483647
 
 # --------------------------------------------------------------------------------- encoding
